@@ -19,6 +19,7 @@ ASSUMPTIONS = [
 ]
 REQUIRED = ["C01:pre-nlv-replayed", "C01:post-nlv-replayed", "C01:nlv-identity", "C01:delta-trade", "C01:delta-quote", "C01:context-pre", "C01:context-post",
             "C01:twin-spot-future"]
+REQUIRED_CATS = ["flat-margined-contract-discontinued", "liquidation-quote-exactly-zero"]
 REQUIRED_HITS = ["Broker.transact", "Broker.rebalance"]
 
 
@@ -33,6 +34,8 @@ def case(ctx, i, tier):
         cfg, outs = epl.ledger_episode(ctx, {"C01"}, chain=(i % 20 == 18), discrete=False)
         ctx.cat("episode")
         ctx.nontrivial = len(outs) >= 3
+    elif k == 7:
+        bl.special_quotes(ctx, {"C01"})
     else:
         bl.history(ctx, {"C01"})
         ctx.nontrivial = ctx.notes.get("nt01", False)
